@@ -1145,6 +1145,10 @@ def run_case(case, root):
                             continue
                         tm0.abort()
                         F0.clear()
+                        reset_view()                  # new snapshot: what other connections committed meanwhile is seen
+                        if slot in objs and slot not in V['linked']:
+                            cnt('skip')
+                            continue
                         data = decode_data(op[2])
                         fresh = slot not in objs
                         if fresh:
@@ -1167,6 +1171,10 @@ def run_case(case, root):
                         finally:
                             fh.close()
                         tm0.abort()
+                        F0.clear()
+                        reset_view()                  # (again a new snapshot)
+                        if not fresh:
+                            want = V['bytes'][slot] + data
                         guard()
                         check_disk('abort')
                         # retry: the same data, the blob closed this time
